@@ -187,7 +187,7 @@ theorem inv_step {tbl : List (α × α)} (hinj : TableInj tbl) {s s' : St α} {l
         simp only [enabled, Bool.and_eq_true, Option.isNone_iff_eq_none] at hen
         intro n
         have := inv.seqs n
-        simp only [seqList, heq, hen.1.1.1, List.count_append, List.map_cons, List.count_cons, Option.toList_none,
+        simp only [seqList, heq, hen.1.1.1.2, List.count_append, List.map_cons, List.count_cons, Option.toList_none,
           Option.toList_some, List.map_nil, List.count_nil] at this ⊢
         omega
       · exact inv
@@ -250,14 +250,19 @@ theorem inv_step {tbl : List (α × α)} (hinj : TableInj tbl) {s s' : St α} {l
       split
       · exact ⟨inv.keys, inv.ans, inv.ansSet, inv.park, inv.parkHold, inv.seqs⟩
       · exact inv
+    | rxCleanPop =>
+      simp only [stepF]
+      split
+      · exact ⟨inv.keys, inv.ans, inv.ansSet, inv.park, inv.parkHold, inv.seqs⟩
+      · exact inv
     | rxCleanup removed =>
       simp only [stepF]
       simp only [enabled] at hen
       split
-      · next i t hc =>
+      · next i hc =>
         rw [hc] at hen
         simp only [Bool.and_eq_true, lockFree, Bool.not_true, Bool.false_or, Option.isNone_iff_eq_none] at hen
-        have hlock := hen.1.2
+        have hlock := hen.1
         unfold rxCleanupF
         split
         · split
